@@ -78,7 +78,12 @@ func C17(c *Ctx) {
 			continue
 		}
 		if raw.PointOK() && raw.PointBytes(pc.P) != before {
-			c.Fail("BytesMontgomery modified the point it encodes", det)
+			c.Tally("BytesMontgomery rewrote its receiver (recorded, not a violation by itself)")
+		}
+		if why, _ := checkPoint(pc.P, m); why != "" {
+			det["why"] = why
+			c.Fail("after BytesMontgomery the point is no longer a valid representation of the same point", det)
+			continue
 		}
 		// P and -P agree
 		np := r.PointFor(ref.Neg(m), "neg")
